@@ -85,6 +85,9 @@ namespace Gen
     HLHeader.id (HLHeader.with_type h v) = HLHeader.id h := by bitfield
 @[simp] theorem HLHeader.id_with_id (h v : BitVec 32) :
     HLHeader.id (HLHeader.with_id h v) = v &&& 0xFFFF#32 := by bitfield
+/-- set-set law: the later write wins -/
+theorem LLHeader.with_flags_with_flags (h a b : BitVec 56) :
+    LLHeader.with_flags (LLHeader.with_flags h a) b = LLHeader.with_flags h b := by bitfield
 end Gen
 
 /-! ## values of the getters as arithmetic on the 56-bit integer -/
